@@ -5,6 +5,25 @@ package main
 // Contracts for the verification machinery in /verif (comment-only file; compiled
 // only with -tags verif and adds no code).
 
+//@ # ---- C25: shape of a converted signature ----
+//@ # keywords come after every positional; among keywords the optional ones (is_default) come
+//@ # last; a rest argument (is_asterisk) is followed neither by another rest nor by an optional
+//@ # positional; keywords are never is_asterisk.  (Required and trailing positionals carry no flag,
+//@ # so their relative order is not observable in the output and is not stated.)
+//@ spec noKey(s) = forall(i, 0 <= i && i < len(s) ==> s[i].Key == "")
+//@ spec plainOnly(s) = forall(i, 0 <= i && i < len(s) ==> s[i].Key == "" && !s[i].IsAsterisk && !s[i].IsDefault)
+//@ spec noRest(s) = forall(i, 0 <= i && i < len(s) ==> !s[i].IsAsterisk)
+//@ spec restOK(s) = forall(i, forall(j, 0 <= i && i < j && j < len(s) && s[i].IsAsterisk ==> !s[j].IsAsterisk && !(s[j].IsDefault && s[j].Key == "")))
+//@ spec kwAfter(s) = forall(i, forall(j, 0 <= i && i < j && j < len(s) && s[i].Key != "" ==> s[j].Key != ""))
+//@ spec kwRequiredOnly(s) = forall(i, 0 <= i && i < len(s) && s[i].Key != "" ==> !s[i].IsDefault && !s[i].IsAsterisk)
+//@ spec optKwLast(s) = forall(i, forall(j, 0 <= i && i < j && j < len(s) && s[i].Key != "" && s[i].IsDefault ==> s[j].IsDefault))
+//@ spec kwPlain(s) = forall(i, 0 <= i && i < len(s) && s[i].Key != "" ==> !s[i].IsAsterisk)
 //@ func ti/cmd/rbs2json.convertArguments
+//@   loop 0 invariant[C25] plainOnly(args)
+//@   loop 1 invariant[C25] noKey(args) && noRest(args)
+//@   loop 2 invariant[C25] noKey(args) && restOK(args)
+//@   loop 3 invariant[C25] restOK(args) && kwAfter(args) && kwRequiredOnly(args)
+//@   loop 4 invariant[C25] restOK(args) && kwAfter(args) && optKwLast(args) && kwPlain(args)
+//@   ensures[C25] restOK(result) && kwAfter(result) && optKwLast(result) && kwPlain(result)
 //@   witnessgo order:loop0.commute:var:args#0 u := RBSType{Class: "class_instance", Name: "Integer"}; ft := RBSFuncType{RequiredKeywords: map[string]RBSParam{"a": {Type: &u}, "b": {Type: &u}, "c": {Type: &u}, "d": {Type: &u}}}; seen := map[string]bool{}; for i := 0; i < 80; i++ { seen[fmt.Sprint(convertArguments(ft, typeAliasMap{}, "X"))] = true }; violated = len(seen) > 1
 //@   witnessgo order:loop1.commute:var:args#0 u := RBSType{Class: "class_instance", Name: "Integer"}; ft := RBSFuncType{OptionalKeywords: map[string]RBSParam{"a": {Type: &u}, "b": {Type: &u}, "c": {Type: &u}, "d": {Type: &u}}}; seen := map[string]bool{}; for i := 0; i < 80; i++ { seen[fmt.Sprint(convertArguments(ft, typeAliasMap{}, "X"))] = true }; violated = len(seen) > 1
